@@ -81,6 +81,15 @@ def case_fn(c):
     op = model["ops"]["opx"]
     declared = [v for v, (vt, _) in op["vars"].items() if vt == "const"]
     values = {v: d for v, (vt, d) in op["vars"].items()}
+    for pre in c.get("pre_models", []):
+        # earlier exports into the SAME directory under the same file name (their files stay on disk; only the in-memory caches are reset)
+        from pyrates import clear_frontend_caches
+        try:
+            mdl.build_templates(pre).get_run_func("vfx", step_size=1e-3, file_name="auto_mod", backend="fortran", float_precision="float64", auto=True,
+                                                  vectorize=False, solver="scipy", verbose=False)
+        except Exception:
+            pass
+        clear_frontend_caches()
     tpl = mdl.build_templates(model)
     try:
         tpl.get_run_func("vfx", step_size=1e-3, file_name="auto_mod", backend="fortran", float_precision="float64", auto=True,
@@ -231,11 +240,29 @@ def run(chk, site="C18/auto-files", sizes=None):
     for tag, feats, model in auto_models(chk.seed):
         if sizes is None or (feats["n_params"] in sizes and not feats.get("reversed")):
             cases.append(dict(tag=tag, features=feats, model=model, seed=chk.seed))
+    # a second (third) export into a directory that already holds the files of an earlier one: the same model with the first two
+    # parameter declarations swapped (texts of equal length), then with other values of equal printed width
+    import json as _json
+    for tag, feats, model in auto_models(chk.seed):
+        if tag in ("AU-3-params", "AU-12-params") and (sizes is None or feats["n_params"] in sizes):
+            vars_ = model["ops"]["opx"]["vars"]
+            consts = [k for k, v in vars_.items() if v[0] == "const"]
+            swapped = _json.loads(_json.dumps(model))
+            order = [k for k in vars_ if k not in consts] + [consts[1], consts[0]] + consts[2:]
+            swapped["ops"]["opx"]["vars"] = {k: vars_[k] for k in order}
+            other = _json.loads(_json.dumps(model))
+            for k in consts:
+                other["ops"]["opx"]["vars"][k] = ["const", round(vars_[k][1] + 0.001, 3)]
+            cases.append(dict(tag=tag + "/third-export-into-the-same-directory", features=dict(feats, re_export=True), model=model, seed=chk.seed,
+                              pre_models=[swapped, other]))
+            cases.append(dict(tag=tag + "/swapped-declaration-after-first-export", features=dict(feats, re_export=True), model=swapped, seed=chk.seed,
+                              pre_models=[model]))
     driver.run_family(
         chk, "auto07p-text-consistency", cases, case_fn, site=site,
         rule="two-state models with 3, 9, 10, 11, 12, 16 and 25 parameters whose order of first use in the equations differs from "
              "the declaration order (last-declared half used first, in reverse): get_run_func(backend='fortran', auto=True) writes "
              "<file>.f90 and c.ivp, which are parsed: slots distinct / outside 11..14 / in declaration order; parnames <-> STPNT <-> "
              "forwarding call <-> DFDP columns use the same slot per parameter; unames / y(i) / NDIM / NPAR; the dy, DFDU and DFDP "
-             "expressions evaluated as arithmetic against the spec and its central differences; distinct = parameter counts",
+             "expressions evaluated as arithmetic against the spec and its central differences; re-exports into a directory that already holds "
+             "the files of an earlier export (declarations swapped / other values); distinct = parameter counts",
         sample_of=lambda c: dict(tag=c["tag"], n_params=c["features"]["n_params"]), timeout=900)
